@@ -140,6 +140,39 @@ def run(ctx):
             else:
                 H.violation("monkeytype.db.sqlite:SQLiteStore.add", "partial-batch:abort@%d:%d-of-%d" % (n, len(got), len(want)), "an interrupted batch insert left a partial batch",
                             {"abort_every_vm_steps": n, "outcome": outcome}, {"rows_after_reopen": len(got), "rows_same_connection": len(got_same)}, "0 or %d" % len(want))
+        H.section("interrupted large batch", "batches of 600 / 1800 distinct rows whose last row is rejected by a BEFORE INSERT trigger (RAISE(ABORT)), and the same batches aborted by the progress handler "
+                  "late in the insert: afterwards (same connection, second connection, after reopen) none of the batch is present", "2 sizes x (trigger + 6 late abort points)")
+        for size in (600, 1800):
+            big = [CallTrace(make_func("big", "f%04d" % i), {"x": int}, int) for i in range(size - 1)] + [CallTrace(make_func("big", "zz_last"), {"x": int}, int)]
+            for mode in ["trigger"] + [("progress", size * k) for k in (2, 4, 6, 8, 10, 12)]:
+                path = os.path.join(tmp, "big%d_%s.sqlite3" % (size, mode if isinstance(mode, str) else mode[1]))
+                st = SQLiteStore.make_store(path)
+                st.add([trace("M1", "foo")])
+                if mode == "trigger":
+                    st.conn.execute("CREATE TRIGGER boom BEFORE INSERT ON monkeytype_call_traces WHEN NEW.qualname = 'zz_last' BEGIN SELECT RAISE(ABORT, 'boom'); END")
+                    st.conn.commit()
+                else:
+                    st.conn.set_progress_handler(lambda: 1, mode[1])
+                try:
+                    st.add(big)
+                    outcome = "committed"
+                except sqlite3.Error:
+                    outcome = "aborted"
+                st.conn.set_progress_handler(None, 0)
+                other = SQLiteStore.make_store(path)
+                n_same, n_other = len(st.filter("big", None, 5000)), len(other.filter("big", None, 5000))
+                st.conn.close()
+                other.conn.close()
+                re = SQLiteStore.make_store(path)
+                n_re = len(re.filter("big", None, 5000))
+                re.conn.close()
+                want_n = size if outcome == "committed" else 0
+                key = "big:%d:%s:%s" % (size, mode if isinstance(mode, str) else "progress@%d" % mode[1], outcome)
+                if n_same == n_other == n_re == want_n and (mode != "trigger" or outcome == "aborted"):
+                    H.ok(key, nontrivial=True, sample={"batch": size, "mode": str(mode), "outcome": outcome, "rows": n_re})
+                else:
+                    H.violation("monkeytype.db.sqlite:SQLiteStore.add", "partial-large-batch:%s:%d/%d/%d" % (key, n_same, n_other, n_re), "an interrupted batch insert left part of the batch committed",
+                                {"batch_size": size, "mode": str(mode), "outcome": outcome}, {"same_connection": n_same, "other_connection": n_other, "after_reopen": n_re}, "0 or %d" % size)
         H.section("concurrent writers", "N processes adding batches to one database file concurrently: afterwards every row is one some process added, integrity_check is ok", "N in %s" % ([2, 4] if not thorough else [2, 4, 8, 16]))
         for nproc in ([2, 4] if not thorough else [2, 4, 8, 16]):
             path = os.path.join(tmp, "c%d.sqlite3" % nproc)
